@@ -66,13 +66,37 @@ Hit(p, alg) ==
 Answer(p, alg) == IF Hit(p, alg) THEN row[p].h ELSE file[p].c
 Saved(p, alg) == IF Hit(p, alg) THEN row[p] ELSE [tok |-> Tok(file[p]), h |-> file[p].c, alg |-> alg, ver |-> CodeVersion]
 
-\* hash_file(path, fs, alg, state) / _get_hashes(paths...) / build(): ask for the hashes of a set of existing files
+\* hash_file(path, fs, alg, state) / _get_hashes(paths...) / build(): ask for the hashes of a set of existing files.
+\* Staging a directory and hashing an index of it look at every file of the directory, whatever the caller wanted to know
+Scope(P, api) == IF api \in {"build", "index_md5"} THEN {q \in Paths : Exists(q)} ELSE P
 Query(P, alg, api) ==
     /\ Tick /\ P # {} /\ \A p \in P : Exists(p)
     /\ last' = [op |-> "Query", ans |-> [p \in P |-> Answer(p, alg)]]
-    /\ row' = [p \in Paths |-> IF p \in P THEN Saved(p, alg) ELSE row[p]]
+    /\ row' = [p \in Paths |-> IF p \in Scope(P, api) THEN Saved(p, alg) ELSE row[p]]
     /\ act' = [op |-> "Query", P |-> P, alg |-> alg, api |-> api]
     /\ UNCHANGED <<file, carried, used, clock>>
+
+\* a query on one file that is really hashed (no hit) while a writer replaces the file.  The call takes the file's
+\* stat (the caller's, or its own before it opens the file), reads the bytes, and records the hash against THAT stat:
+\*   when = "before-read": the write lands after the stat and before the bytes are read
+\*   when = "after-read" : the write lands after the last byte was read and before the row is saved
+\* Either way the row carries the token from before the write, so it can never be a hit for the new file.
+\* (F17, repaired: callers that passed no stat had the row recorded against a stat taken AFTER the read - the hash of
+\* the old bytes under the token of the new file.)  The in-flight answer itself is the hash of what was read.
+QueryRace(p, alg, api, c, newIno, newMt, when) ==
+    /\ Tick /\ Exists(p) /\ ~Hit(p, alg)
+    /\ LET t0 == Tok(file[p])
+           f == [ino |-> IF newIno THEN clock ELSE file[p].ino, mt |-> IF newMt THEN clock ELSE file[p].mt, c |-> c]
+           rd == IF when = "before-read" THEN c ELSE file[p].c
+       IN /\ Tok(f) \notin used[p]                     \* A13
+          /\ file' = [file EXCEPT ![p] = f]
+          /\ used' = [used EXCEPT ![p] = @ \cup {Tok(f)}]
+          /\ row' = [q \in Paths |-> IF q = p THEN [tok |-> t0, h |-> rd, alg |-> alg, ver |-> CodeVersion]
+                                     ELSE IF q \in Scope({p}, api) THEN Saved(q, alg) ELSE row[q]]
+          /\ last' = [op |-> "QueryRace", ans |-> [q \in {p} |-> rd]]
+    /\ clock' = clock + 1
+    /\ act' = [op |-> "QueryRace", p |-> p, alg |-> alg, api |-> api, c |-> c, ino |-> newIno, mt |-> newMt, when |-> when]
+    /\ UNCHANGED carried
 
 \* a row that the code under test must never return for algorithm md5 although its token is current:
 \* recorded for another algorithm / by a newer format version / legacy unversioned (means md5-dos2unix)
@@ -101,6 +125,8 @@ Next ==
     \/ \E p \in Paths : Delete(p)
     \/ \E p \in Paths, c \in Contents : Create(p, c)
     \/ \E P \in SUBSET Paths, alg \in Algs : Query(P, alg, "any")
+    \/ \E p \in Paths, alg \in Algs, c \in Contents, i \in BOOLEAN, m \in BOOLEAN, w \in {"before-read", "after-read"} :
+          QueryRace(p, alg, "any", c, i, m, w)
     \/ \E p \in Paths, k \in {"otheralg", "newer", "legacy"} : Inject(p, k)
     \/ Snapshot \/ Carry
 
